@@ -38,14 +38,20 @@ int main (int argc, char** argv)
     fn (nm ("cov_n", n), [n] {
       stub_mode* m = new stub_mode; fill_stub (m, n);
       single s (m); s.sample_size = n;
-      out_mat ("m", s.get_covariance ());
+      Matrix<4,4,double> C = s.get_covariance ();
+      out_mat ("m", C);
+      if (!symbolic) { double sum = 0; for (unsigned i=0; i<n; i++) for (unsigned j=0; j<n; j++) { unsigned l = i > j ? i - j : j - i; sum += (l == 0) ? m->c : m->x[l]; }
+        expect ("predicted covariance of the sample mean = double sum of per-instance (cross-)covariances / n^2", C[1][2], m->P[1][2] * sum / double (n*n)); }
     }, 2);
   // predicted cross-covariance at sample lag L = 0..3
   for (unsigned n=1; n<=nmax; n++) for (unsigned L=0; L<=3; L++)
     fn ("xcov_n" + std::to_string (n) + "_L" + std::to_string (L), [n, L] {
       stub_mode* m = new stub_mode; fill_stub (m, L*n + n);
       single s (m); s.sample_size = n;
-      out_mat ("m", s.get_crosscovariance (L));
+      Matrix<4,4,double> C = s.get_crosscovariance (L);
+      out_mat ("m", C);
+      if (!symbolic) { double sum = 0; for (unsigned i=0; i<n; i++) for (unsigned j=0; j<n; j++) { int l = int (L*n + i) - int (j); if (l < 0) l = -l; sum += m->x[l]; }
+        expect ("predicted cross-covariance at sample lag L = double sum of per-instance cross-covariances / n^2", C[1][2], m->P[1][2] * sum / double (n*n)); }
     }, 2);
   // a sample is generated from exactly n instances, and is their mean; predicted mean = mode mean
   for (unsigned n=1; n<=4; n++)
